@@ -44,7 +44,7 @@ Definition spec_step (st : sst) (o : op) : sst * (PacketMap.out -> Prop) :=
       if r =? Next
       then (SRun (Next + 1) (D ++ [Next]), fun res => res = RBool true)
       else (st, fun res => res = RBool false)
-  | OReverse o', SInit => (st, fun res => exists p, res = RTriple true o' p)
+  | OReverse o', SInit => (st, fun res => res = RTriple false 0 0)  (* nothing was ever sent *)
   | OReverse o', SRun Next D =>
       (st, fun res => exists ok s p, res = RTriple ok s p /\
                       (ok = true -> exists S, w16 S = s /\ ~ In S D /\ w16 (out D S) = o'))
@@ -133,13 +133,13 @@ Proof.
     + exists e', k. split; [right; exact Hin|exact Hrest].
 Qed.
 
-Lemma reverse_Inv a G o : Inv a G -> 0 <= o < 65536 ->
-  let '(ok, s, _) := l1_reverse a o in
+Lemma reverse_raw_Inv a G o : Inv a G -> 0 <= o < 65536 ->
+  let '(ok, s, _) := l1_reverse_raw a o in
   ok = true -> exists S, w16 S = s /\ ~ In S (gD G) /\ w16 (out (gD G) S) = o.
 Proof.
   destruct G as [Next D gs0]. unfold Inv. cbn [gNext gD gGs].
   intros (Hst & Hn & Hd & Hnd & Hlt & Hv & Hc & Hg & Hh & Hnil & He) Ho.
-  unfold l1_reverse.
+  unfold l1_reverse_raw.
   destruct (l_nil a) eqn:En.
   - assert (Hgs : gs0 = []) by (apply Hnil; reflexivity).
     assert (HD : D = []) by (apply He; exact Hgs). subst.
@@ -164,6 +164,16 @@ Proof.
     exists (First g + k). split; [|split; [exact Hnot|]].
     + rewrite Hx, Hok. unfold w16. lia.
     + rewrite Hout, Hok. unfold w16. lia.
+Qed.
+
+Lemma reverse_Inv a G o : Inv a G -> 0 <= o < 65536 ->
+  let '(ok, s, _) := l1_reverse a o in
+  ok = true -> exists S, w16 S = s /\ ~ In S (gD G) /\ w16 (out (gD G) S) = o.
+Proof.
+  intros HI Ho. pose proof (reverse_raw_Inv a G o HI Ho) as H.
+  unfold l1_reverse. destruct (l1_reverse_raw a o) as [[ok s] p].
+  destruct ok; cbn [andb]; [|intro; discriminate].
+  destruct (l1_recent a s); [exact H|intro; discriminate].
 Qed.
 
 Lemma retire_scalars a :
@@ -291,7 +301,7 @@ Proof.
   - (* Reverse *)
     cbn [l1_step spec_step].
     destruct st as [|Next D].
-    + cbn [rel] in Hrel. subst a. cbn. split; [exists 0; reflexivity|reflexivity].
+    + cbn [rel] in Hrel. subst a. cbn. split; reflexivity.
     + destruct Hrel as (gs & HI).
       pose proof (reverse_Inv a _ o' HI Hwf) as Hr. cbn [gD] in Hr.
       destruct (l1_reverse a o') as [[ok s] p]. cbn [fst snd].
@@ -340,16 +350,16 @@ Qed.
 (* For an outgoing number within 8192 of the newest one, Reverse answers with
    THE source packet whose (unwrapped) outgoing number it is, or with nothing:
    no aliasing modulo 2^16, never a withheld packet. *)
-Lemma reverse_window a G O : Inv a G -> gGs G <> [] ->
+Lemma reverse_raw_window a G O : Inv a G -> gGs G <> [] ->
   let ONext := gNext G - zl (gD G) in
   ONext - 8192 <= O < ONext ->
-  let '(ok, s, _) := l1_reverse a (w16 O) in
+  let '(ok, s, _) := l1_reverse_raw a (w16 O) in
   ok = true -> exists S, w16 S = s /\ ~ In S (gD G) /\ out (gD G) S = O /\ S < gNext G.
 Proof.
   destruct G as [Next D gs0]. unfold Inv. cbn [gNext gD gGs].
   intros (Hst & Hn & Hd & Hnd & Hlt & Hv & Hc & Hg & Hh & Hnil & He) Hne.
   set (ONext := Next - zl D). intros HO.
-  unfold l1_reverse.
+  unfold l1_reverse_raw.
   destruct (l_nil a) eqn:En; [exfalso; apply Hne; apply Hnil; reflexivity|].
   rewrite Hv.
   assert (Hco : chainP opos ONext gs0).
@@ -364,6 +374,18 @@ Proof.
   exists (O - Delta g). split; [|split; [exact Hnot|split; [lia|]]].
   - rewrite Hv'. cbn [erase e_delta]. unfold w16. lia.
   - destruct (chain_ends First gs0 Next g Hc Hin). lia.
+Qed.
+
+Lemma reverse_window a G O : Inv a G -> gGs G <> [] ->
+  let ONext := gNext G - zl (gD G) in
+  ONext - 8192 <= O < ONext ->
+  let '(ok, s, _) := l1_reverse a (w16 O) in
+  ok = true -> exists S, w16 S = s /\ ~ In S (gD G) /\ out (gD G) S = O /\ S < gNext G.
+Proof.
+  intros HI Hne ONext HO. pose proof (reverse_raw_window a G O HI Hne HO) as H.
+  unfold l1_reverse. destruct (l1_reverse_raw a (w16 O)) as [[ok s] p].
+  destruct ok; cbn [andb]; [|intro; discriminate].
+  destruct (l1_recent a s); [exact H|intro; discriminate].
 Qed.
 
 (* every reachable state is related to the specification state reached by the
